@@ -11,6 +11,26 @@ import (
 	"runtime/debug"
 )
 
+// Cmd is a harness sub-command: args are the command line after the sub-command name.
+type Cmd func(args []string)
+
+var registry = map[string]Cmd{}
+
+// Register adds a sub-command (called from the init() of a family package).
+func Register(name string, c Cmd) { registry[name] = c }
+
+// Lookup returns a registered sub-command.
+func Lookup(name string) (Cmd, bool) { c, ok := registry[name]; return c, ok }
+
+// Names lists the registered sub-commands.
+func Names() []string {
+	var n []string
+	for k := range registry {
+		n = append(n, k)
+	}
+	return n
+}
+
 // Lines calls fn for every non-empty line of r (lines may be very long).
 func Lines(r io.Reader, fn func(line []byte) error) error {
 	br := bufio.NewReaderSize(r, 1<<20)
